@@ -268,3 +268,42 @@ QUERIES = [
      "timeout": {"quick": 600, "thorough": 1800},
      "bound": "4 targets A->B->C, D<-(A,B); invocation 1 = run of a named target, then each accepted job in one of 5 abstract states (symbolic), finish times symbolic ints; invocation 2 = run of everything"},
 ]
+
+
+# ---------------------------------------------------------------- Q7p  the local pool honours the prerequisites it was given
+from vf.props import localpool as LP
+
+
+def _q7p(e0, e1, e2, e3, e4, e5, f0, f1, f2, f3, f4, f5, rc0, rc1, rc2, rc3, sf, lf):
+    r = LP.pool_body((e0, e1, e2, e3, e4, e5, f0, f1, f2, f3, f4, f5, rc0, rc1, rc2, rc3, sf, lf))
+    if r is None or r == "":
+        return r
+    if r.startswith("[C11]") or r.startswith("unexpected"):
+        return r
+    return ""
+
+
+def q7p(e0: int, e1: int, e2: int, e3: int, e4: int, e5: int, f0: bool, f1: bool, f2: bool, f3: bool, f4: bool, f5: bool,
+        rc0: int, rc1: int, rc2: int, rc3: int, sf: int, lf: int) -> str:
+    """
+    post: _ == ""
+    """
+    return q.run(_q7p, (e0, e1, e2, e3, e4, e5, f0, f1, f2, f3, f4, f5, rc0, rc1, rc2, rc3, sf, lf))
+
+
+def _sp(shards):
+    out = []
+    for sh in shards:
+        out.extend(LP.split(sh))
+    return out
+
+
+QUERIES.append(
+    {"name": "Q7p", "fn": q7p,
+     "shards": {"quick": _sp([{"scen": "join", "cores": 2, "steps": 2}, {"scen": "late-join", "cores": 2, "steps": 3}]),
+                "thorough": _sp([{"scen": s, "cores": c, "steps": 3} for s in ("join", "late-join", "chain", "fork") for c in (1, 2)])},
+     "timeout": {"quick": 900, "thorough": 3000},
+     "bound": "the real worker pool (vf/props/localpool.py) with the dependency ids gwf hands it: fan-in of two prerequisites submitted together or late (after one prerequisite already failed while the other still runs), "
+              "symbolic exit codes and event script; a task is started only when every prerequisite task completed successfully"})
+META["real"] = META["real"] + LP.META_COMMON["real"]
+META["stubs"] = META["stubs"] + LP.META_COMMON["stubs"]
